@@ -193,7 +193,8 @@ func udpWire(w *rec.W, v uint32, wcodes []int) {
 			runs.Store(0)
 			refused.Store(false)
 			from := u.Sess.OutLen()
-			err := u.Inject(memnet.Build(typ, int(codes.GET), mid, tok, reqOpts(v), []byte{byte(c)}))
+			// (every request method in turn: GET POST PUT DELETE and the RFC 8132 methods FETCH PATCH iPATCH)
+			err := u.Inject(memnet.Build(typ, 1+int(mid)%7, mid, tok, reqOpts(v), []byte{byte(c)}))
 			if err != nil {
 				rec.Die("c20 udp inject: %v", err)
 			}
@@ -311,7 +312,7 @@ func tcpWire(w *rec.W, v uint32, wcodes []int) {
 		runs.Store(0)
 		refused.Store(false)
 		from := len(t.Stream.Written(0))
-		if !t.Feed(conns.Frame(int(codes.GET), tok, reqOpts(v), []byte{byte(c)})) {
+		if !t.Feed(conns.Frame(1+n%7, tok, reqOpts(v), []byte{byte(c)})) {
 			rec.Die("c20 tcp: feed did not settle")
 		}
 		r := wire{Op: "wire", Transport: "tcp", Con: false, VHi: int(v >> 16), VLo: int(v & 0xffff), Code: c, HandlerRuns: int(runs.Load()), SetRefused: refused.Load(), RespCode: -1}
